@@ -1901,7 +1901,8 @@ class BreakAction(Action, HasDefaultDebugInfo):
         return True
 
     def get_target_override_targets(self):
-        return [self.refers_to.end_state]
+        # the actions that run on the way out (the statements following the loop) may redirect as well, e.g. an append running out of space
+        return [self.refers_to.end_state] + [tgt for action in self.refers_to.after_break_actions for tgt in action.get_target_override_targets()]
 
     def get_target_override_mode(self):
         return ActionOverrideMode.ALWAYS_GOTO_OTHER
